@@ -5,7 +5,7 @@ from fractions import Fraction as Fr
 import numpy as np
 
 HERE = os.path.dirname(os.path.abspath(__file__))
-DRIVER = os.path.join(HERE, "..", "lean", ".lake", "build", "bin", "driver")
+DRIVER = os.environ.get("PEPV_DRIVER") or os.path.join(HERE, "..", "lean", ".lake", "build", "bin", "driver")
 
 
 def _table():
